@@ -33,6 +33,12 @@ class _Break(Exception):
     pass
 
 
+class _Goto(Exception):
+    def __init__(self, label):
+        Exception.__init__(self, "goto %s" % label)
+        self.label = label
+
+
 class _Continue(Exception):
     pass
 
@@ -137,6 +143,8 @@ class Interp:
             self.stmt(func, func.body, env, depth)
         except _Return as r:
             return r.v
+        except _Goto as g:
+            raise Unsupported("goto into a nested block (%s)" % g.label)
         return None
 
     def tick(self):
@@ -151,8 +159,24 @@ class Interp:
         self.tick()
         k = s["k"]
         if k == "block":
-            for c in s["body"]:
-                self.stmt(f, c, env, depth)
+            items = s["body"]
+            i = 0
+            hops = 0
+            while i < len(items):
+                try:
+                    self.stmt(f, items[i], env, depth)
+                except _Goto as g:
+                    # a forward or backward jump to a label that is a direct child of this block
+                    tgt = [j for j, it in enumerate(items) if it is not None and it["k"] == "label"
+                           and it.get("name") == g.label]
+                    if not tgt:
+                        raise
+                    hops += 1
+                    if hops > 5000:
+                        raise Unsupported("loop bound")
+                    i = tgt[0]
+                    continue
+                i += 1
         elif k == "decl":
             for v in s["vars"]:
                 if "init" in v:
@@ -210,8 +234,10 @@ class Interp:
             self._switch(f, s, env, depth)
         elif k in ("case", "default"):
             self.stmt(f, s.get("body"), env, depth)
-        elif k in ("goto", "label"):
-            raise Unsupported(k)
+        elif k == "goto":
+            raise _Goto(s.get("label"))
+        elif k == "label":
+            self.stmt(f, s.get("body"), env, depth)
         else:
             self.expr(f, s, env, depth)
 
@@ -511,14 +537,23 @@ class Interp:
                     return int(op in (">", ">="))
             raise Unsupported("symbolic op " + op)
         if not (isinstance(l, int) and isinstance(r, int)):
-            if op in ("==", "!=") and (l is None or r is None or isinstance(l, Ptr) or isinstance(r, Ptr)):
-                ln, rn = (l is None or l == 0), (r is None or r == 0)
-                if isinstance(l, Ptr):
-                    ln = False
-                if isinstance(r, Ptr):
-                    rn = False
-                eq = ln == rn if (ln or rn) else False
-                return int(eq if op == "==" else not eq)
+            def nullness_(x):
+                if x is None or (isinstance(x, int) and x == 0):
+                    return True
+                if isinstance(x, (Ptr, dict)) or type(x).__name__ == "NodeRef":
+                    return False          # a pointer to something
+                return None
+            if op in ("==", "!="):
+                ln, rn = nullness_(l), nullness_(r)
+                if ln is not None and rn is not None and (ln or rn):
+                    eq = ln == rn
+                    return int(eq if op == "==" else not eq)
+                if isinstance(l, Ptr) and isinstance(r, Ptr):
+                    eq = l == r
+                    return int(eq if op == "==" else not eq)
+                if isinstance(l, dict) and isinstance(r, dict):
+                    eq = l is r
+                    return int(eq if op == "==" else not eq)
             return OPAQUE
         if op in ("+", "-", "*"):
             v = l + r if op == "+" else (l - r if op == "-" else l * r)
